@@ -385,7 +385,7 @@ def engines():
     out = [{"name": "tlc", "path": "/verif/harness/tlc.py", "serves_properties": sorted(CLAIMED),
             "kind_free_text": "TLC 1.8 model checker / simulator driven from Python (model checking, behaviour generation, batch trace "
                               "validation via harness/trace.py); specs in /verif/spec"},
-           {"name": "apalache", "path": "/verif/harness/tlc.py", "serves_properties": ["C02", "C04", "C08", "C09", "C19"],
+           {"name": "apalache", "path": "/verif/harness/tlc.py", "serves_properties": ["C02", "C04", "C08", "C09", "C10", "C19"],
             "kind_free_text": "Apalache 0.58 (thorough tier): ArithLemmas.tla (length 0) and the inductive invariant of Inductive.tla "
                               "(base + step) over unbounded integers; 'not discharged' is reported, never a failure"}]
     serves = {}
